@@ -926,7 +926,7 @@ def _run_e2(case):
                 for r2 in E2_LAST_READS:
                     histories.append((r0, first, r1, s2, r2))
     v, obs = [], []
-    ntr = nstates = pruned = nraise = 0
+    ntr = nstates = pruned = 0
 
     def read(mat, which, scribble=True):
         A = mat.C if which == "C" else mat.S
@@ -970,7 +970,6 @@ def _run_e2(case):
             v.append(viol("e2_raises", f"during [{hist_str}] an assignment / a read of C, S / building the fresh law raised "
                           f"{type(ex).__name__}: {str(ex)[:200]} (heterogeneous constants at that point: {_hetero(cur)!r})",
                           history=hist_str, hetero=_hetero(cur), exc=type(ex).__name__, **base_key))
-            nraise += 1
             continue
         het = _hetero(cur)
         ntr += 6
